@@ -211,7 +211,7 @@ class ValidatorValidate(Contract):
 
 def _gvs_at_call(self, E, v, version, schema_name="map"):
     empty_model = isinstance(v.expanded_schemas, MDict) and not v.expanded_schemas.entries and v.expanded_schemas.tail is None
-    if not S.is_sym(version) and not S.is_sym(schema_name) and isinstance(schema_name, str) and (isinstance(v.expanded_schemas, dict) or empty_model):
+    if E.__dict__.get("gvs_native") and not S.is_sym(version) and not S.is_sym(schema_name) and isinstance(schema_name, str) and (isinstance(v.expanded_schemas, dict) or empty_model):
         # concrete request on a Validator with concrete (or still empty) caches, as in utils.create: the real code runs natively
         try:
             if empty_model:
@@ -664,6 +664,7 @@ class Create(Contract):
 
     def build(self, E, case):
         t, v = case.split(":")
+        E.__dict__["gvs_native"] = True      # concrete requests: get_versioned_schema (under its own contract) runs natively on the real schemas
         return (t, None if v == "none" else float(v)), {}
 
     def ensures(self, E, case, args, kwargs, out):
